@@ -20,6 +20,83 @@ def rewrite(fr, rws):
         else: fr[0:6] = mac(b)
     return bytes(fr)
 
+# ---- frames of several kinds and what the OpenFlow 1.0 rewrite actions do to their BYTES (computed here, independently of pox.lib.packet)
+
+def _csum(data):
+    if len(data) % 2: data = data + b"\0"
+    s = sum((data[k] << 8) | data[k + 1] for k in range(0, len(data), 2))
+    while s >> 16: s = (s & 0xffff) + (s >> 16)
+    return (~s) & 0xffff
+
+def _put16(b, k, v):
+    return b[:k] + bytes([(v >> 8) & 0xff, v & 0xff]) + b[k + 2:]
+
+def _l3(b):
+    """(offset of the network header, tagged?)"""
+    return (18, True) if (b[12:14] == b"\x81\x00" and len(b) >= 18) else (14, False)
+
+def _refresh(b):
+    """IPv4 header checksum and UDP checksum of one of OUR udp frames (20-byte header, no fragments) recomputed"""
+    o, _ = _l3(b)
+    tot = (b[o + 2] << 8) | b[o + 3]
+    seg = _put16(b[o + 20:o + tot], 6, 0)
+    c = _csum(b[o + 12:o + 20] + bytes([0, 17, (len(seg) >> 8) & 0xff, len(seg) & 0xff]) + seg)
+    b = b[:o + 20] + _put16(seg, 6, c or 0xffff) + b[o + tot:]
+    h = _put16(b[o:o + 20], 10, 0)
+    return b[:o] + _put16(h, 10, _csum(h)) + b[o + 20:]
+
+def frame2(i, n, kind="raw"):
+    """frame number i of about n bytes.  raw: experimental ethertype (frame()); tag: the same behind an 802.1Q tag; udp / tudp: IPv4+UDP
+    with valid checksums (untagged / tagged)"""
+    if kind == "raw": return frame(i, n)
+    if kind == "tag":
+        f = frame(i, max(n - 4, 16))
+        return f[:12] + bytes([0x81, 0x00, ((i % 8) << 5) | 0, (i % 6) + 1]) + f[12:]
+    hdr = frame(i, 14)[:12]
+    pay = bytes((i * 5 + k) & 0xff for k in range(max(0, n - (46 if kind == "tudp" else 42))))
+    udp = bytes([(1000 + i % 1000) >> 8, (1000 + i % 1000) & 0xff, 0, 53]) + bytes([(8 + len(pay)) >> 8, (8 + len(pay)) & 0xff, 0, 0]) + pay
+    ip = bytes([0x45, 0, (20 + len(udp)) >> 8, (20 + len(udp)) & 0xff, 0, 0, 0, 0, 64, 17, 0, 0, 10, 0, (i >> 8) & 0xff, i & 0xff, 10, 1, 0, 2])
+    tag = bytes([0x81, 0x00, 0x20, 0x07]) if kind == "tudp" else b""
+    return _refresh(hdr + tag + b"\x08\x00" + ip + udp)
+
+REWRITES = ("dl_src", "dl_dst", "vlan_vid", "vlan_pcp", "strip_vlan", "nw_src", "nw_dst", "nw_tos", "tp_src", "tp_dst")
+OUTPUTS = ("out", "enq", "inport", "flood", "all")       # items that put the packet on physical ports (and so serialise it)
+BUFFERING = ("ctl", "table")                               # items that hand the packet to the controller: output:CONTROLLER(max_len), output:TABLE into a miss
+
+def rw_bytes(it, b):
+    """OpenFlow 1.0 rewrite action `it` = [kind, value] applied to the wire bytes b of one of our frames"""
+    k = it[0]; o, tagged = _l3(b)
+    if k in ("vlan_vid", "vlan_pcp"):
+        if not tagged: b = b[:12] + b"\x81\x00\x00\x00" + b[12:]
+        tci = (b[14] << 8) | b[15]
+        tci = (tci & 0xf000) | (it[1] & 0x0fff) if k == "vlan_vid" else (tci & 0x1fff) | ((it[1] & 7) << 13)
+        return _put16(b, 14, tci)
+    if k == "strip_vlan": return b[:12] + b[16:] if tagged else b
+    if k == "dl_src": return b[:6] + mac(it[1]) + b[12:]
+    if k == "dl_dst": return mac(it[1]) + b[6:]
+    if b[o - 2:o] != b"\x08\x00": return b                       # not IP: the network / transport rewrites leave the frame alone
+    if k == "nw_src": return _refresh(b[:o + 12] + bytes([192, 168, 0, it[1] & 0xff]) + b[o + 16:])
+    if k == "nw_dst": return _refresh(b[:o + 16] + bytes([192, 168, 1, it[1] & 0xff]) + b[o + 20:])
+    if k == "nw_tos": return _refresh(b[:o + 1] + bytes([(it[1] & 0xfc) | (b[o + 1] & 3)]) + b[o + 2:])
+    if k == "tp_src": return _refresh(_put16(b, o + 20, it[1]))
+    if k == "tp_dst": return _refresh(_put16(b, o + 22, it[1]))
+    raise ValueError("rewrite %r" % (it,))
+
+
+class OddError(Exception):
+    """an exception of the harness's own whose text is awkward to log or format"""
+    def __str__(self): return "défaut %s {} %d\nsecond line"
+
+FAULT_SPELLINGS = ["OSError", "EPIPE", "RuntimeError", "ValueError", "KeyError", "AssertionError", "StopIteration", "MemoryError", "OddError", "ENETDOWN"]
+FAULT_SITES = ["listener", "method"]       # a DpPacketOut listener raises / the switch's own _output_packet_physical raises (a PCapSwitch whose interface went away)
+
+def make_exc(sp):
+    import errno
+    return {"OSError": lambda: OSError(errno.EIO, "Input/output error"), "EPIPE": lambda: BrokenPipeError(errno.EPIPE, "Broken pipe"),
+            "ENETDOWN": lambda: OSError(errno.ENETDOWN, "Network is down"), "RuntimeError": lambda: RuntimeError("send failed"),
+            "ValueError": lambda: ValueError(""), "KeyError": lambda: KeyError(3), "AssertionError": lambda: AssertionError(),
+            "StopIteration": lambda: StopIteration(), "MemoryError": lambda: MemoryError(), "OddError": lambda: OddError()}[sp]()
+
 def descents(n):
     """smaller values to try for a size parameter: half, then ever smaller steps down to n-1"""
     seen, d = set(), max(n // 2, 1)
@@ -33,7 +110,7 @@ def expand(case):
     """primitive ops of a case.  Macro ops stand for many primitives: `fill` = n arrivals of consecutive frames, `userefs` = a
     release for each of a range of earlier outputs.  A primitive names its buffer either literally ("id") or as "r": the index of
     the earlier primitive whose packet-in handed the id out (0 when that one handed none out) — "ref": [m, k] in the case is the
-    k-th primitive of case op m."""
+    k-th primitive of case op m; "ref": [m, k, q] is the q-th packet-in of that primitive when it is an action list (`acts`)."""
     prims, base, count = [], [], []
     for op in case["ops"]:
         base.append(len(prims))
@@ -51,16 +128,21 @@ def expand(case):
         count.append(len(prims) - base[-1])
     for n, p in enumerate(prims):
         if "ref" in p:
-            m, k = p["ref"]
+            m, k = p["ref"][0], p["ref"][1]
             ok = isinstance(m, int) and isinstance(k, int) and 0 <= m < len(base) and 0 <= k < count[m] and base[m] + k < n
             p["r"] = base[m] + k if ok else None
+            p["q"] = p["ref"][2] if len(p["ref"]) > 2 and isinstance(p["ref"][2], int) else 0
     return prims
 
-def bid_of(o):
+def bid_of(o, q=0):
+    """the buffer id handed out by an earlier step (the q-th packet-in of an action-list step), 0 if it handed none out"""
+    if isinstance(o, dict) and o.get("k") == "acts":
+        pins = o.get("pins") or []
+        o = pins[q] if 0 <= q < len(pins) else None
     return o["bid"] if (isinstance(o, dict) and o.get("k") == "pin" and o.get("bid") is not None) else 0
 
 def op_id(p, outs):
-    if "ref" in p: return bid_of(outs[p["r"]]) if p.get("r") is not None else 0
+    if "ref" in p: return bid_of(outs[p["r"]], p.get("q", 0)) if p.get("r") is not None else 0
     return p["id"]
 
 
@@ -71,7 +153,7 @@ class C18(Check):
     driver = "drv_c18"
     theorems = ["Pox.C18.reachable_inv", "Pox.C18.bounded", "Pox.C18.unique_live", "Pox.C18.use_once", "Pox.C18.packet_in_form", "Pox.C18.unbuffered_iff_full", "Pox.C18.use_to_controller",
                 "Pox.C18.refines_step", "Pox.C18.refines", "Pox.C18.refines_init", "Pox.C18.spec_step_sound",
-                "Pox.C18.fill_ids_distinct", "Pox.C18.fill_all_buffered", "Pox.C18.held_frame_fixed"]
+                "Pox.C18.fill_ids_distinct", "Pox.C18.fill_all_buffered", "Pox.C18.held_frame_fixed", "Pox.C18.run_append", "Pox.C18.list_release"]
     anchors = [("pox/datapaths/switch.py", "SoftwareSwitchBase.send_packet_in"), ("pox/datapaths/switch.py", "SoftwareSwitchBase._buffer_packet"),
                ("pox/datapaths/switch.py", "SoftwareSwitchBase._process_actions_for_packet_from_buffer"), ("pox/datapaths/switch.py", "SoftwareSwitchBase._rx_packet_out"),
                ("pox/datapaths/switch.py", "SoftwareSwitchBase._rx_flow_mod")]
@@ -82,32 +164,41 @@ class C18(Check):
                   "stored packets never exceed max_buffers, an id handed out was not outstanding, using an outstanding id emits exactly its frame once, any other id emits nothing, "
                   "packet-in carries the true total length and either the whole frame without id (pool full) or the first miss_send_len/max_len bytes. "
                   "fill_all_buffered/fill_ids_distinct: n <= max arrivals in a row into an empty pool are all buffered, under pairwise different ids (any n, any max); held_frame_fixed: whatever happens in between, "
-                  "as long as an id is not used it stays tied to the frame it was handed out for. "
+                  "as long as an id is not used it stays tied to the frame it was handed out for; list_release: an action list over an outstanding buffer — any buffering outputs, then the release (also one cut short by a failing output) — "
+                  "answers with exactly the packet-ins of those arrivals, leaves the id no longer outstanding and every other outstanding id tied to its frame. "
                   "Each run re-checks the hand-written model against the real SoftwareSwitch over real OpenFlow bytes on exhaustive short histories, random histories to length 60 and pools of 255..1000 buffers filled completely.")
     level_note = ("Trusted: Lean kernel, standard axioms, hand-written Model/BufPool.lean, harness/swnet.py. Actions applied to a released packet are abstracted to 'emit frame' "
                   "(what actions do to a frame is C12); the harness releases with a single output:IN_PORT action so the stored ingress port is observable. "
-                  "Rewrites before/after an output:CONTROLLER action are limited to set_dl_src/set_dl_dst (six bytes replaced), which the harness computes itself.")
+                  "Arbitrary action lists (op `acts`: outputs to ports / FLOOD / ALL / enqueue, output:CONTROLLER, output:TABLE into a miss and all ten rewrite actions in any order, over raw, "
+                  "802.1Q-tagged and IPv4/UDP frames) are put to the unchanged model as what they amount to for the pool — one `arrive` per buffering output, with the frame as it is AT that "
+                  "output (bytes computed by the harness itself, rw_bytes), then `drop id` for the buffer the list names; the frames such a list puts on ports are judged by the oracle only. "
+                  "A release during which the k-th physical output raises is the same model history cut at the failing output (the buffer is released all the same).")
     trusted_base = ["model Model/BufPool.lean hand-written from switch.py _buffer_packet/_process_actions_for_packet_from_buffer/send_packet_in; tied by this correspondence run"]
     assumptions = ["single-threaded datapath (cooperative tasks): buffer operations are not interleaved",
-                   "the action list a buffer release runs does not raise: _process_actions_for_packet_from_buffer clears the slot after the actions ran, without try/finally, so a raising action handler would leave the id usable again (whether an action can raise on a well-formed request is C12's subject)",
+                   "a physical output that raises during a release (injected: a DpPacketOut listener or _output_packet_physical raising, ten exception spellings, all of class Exception) aborts the rest of that action list; the buffer is released all the same (switch.py try/finally).  What the rest of the list would have done is left open by the oracle (it may or may not happen), the model cuts the list there.  BaseException-only exceptions are not injected",
                    "frames used by the harness parse as Ethernet (>= 14 bytes)",
                    "the pool stores a parsed ethernet object and emission re-packs it, the model stores bytes: they agree where pack(parse(frame)) = frame (C14's round trip; C12-3/C12-4 are the known exceptions) and where nothing changes the stored object between buffering and release (which is what the rewrite-after-buffering histories test)",
                    "release towards the controller is modelled for ONE output:CONTROLLER in the action list (op usectl); an action list with several CONTROLLER outputs, or output:TABLE causing a further table miss while the old slot is occupied, is not an op of the model (the pool bound `bounded` does not depend on it: alloc never exceeds max)",
                    "a flow_mod with a DELETE command that names a buffer is not an op (OpenFlow 1.0 gives buffer_id no meaning there; the property is silent)"]
     rule = ("case = (max_buffers 0..4 or 129..1000 (thorough: ..4097), miss_send_len, optional flow-table capacity, history over {miss arrival, output:CONTROLLER(max_len) arrival — by packet_out or by a flow entry, with set_dl_* rewrites before and after the "
             "CONTROLLER action —, packet_out(buffer id), flow_mod(buffer id) in every flavour (ADD / MODIFY / MODIFY_STRICT, and REFUSED ones: table full, CHECK_OVERLAP conflict, EMERG in its three spellings), the same with an "
-            "empty action list or an output to a port that does not exist (drop), release to the controller again (with rewrites after it), stale/bogus/zero ids, ids named literally or as 'the id handed out by step k', set_config, a flow_mod WITHOUT "
+            "empty action list or an output to a port that does not exist (drop), ARBITRARY ACTION LISTS (`acts`) over a new frame (packet_out with data / a flow entry hit) or over a buffered packet (packet_out / flow_mod "
+            "naming it): sequences over {output:port, enqueue, IN_PORT, FLOOD, ALL, output:CONTROLLER(max_len), output:TABLE into a miss, set_dl_src/dst, set_vlan_vid/pcp, strip_vlan, set_nw_src/dst/tos, set_tp_src/dst} "
+            "on raw / tagged / UDP / tagged-UDP frames, optionally with the k-th physical output of that step RAISING (10 spellings x 2 sites), release to the controller again (with rewrites after it), stale/bogus/zero ids, ids named literally or as 'the id handed out by step k', set_config, a flow_mod WITHOUT "
             "buffer id installing an entry that covers an ingress port, a flow_mod naming a buffer that is refused BEFORE it is carried out (unknown command / unsupported action) (model: `other`, pool untouched)}); "
-            "corpus = all histories of length <= 4 over a 12-op alphabet with pool sizes 0..2, all of length <= 3 over a 10-op flow_mod-flavour alphabet with table capacities 0/1/unlimited, rewrite-after-buffering histories, "
+            "corpus = every [serialising action, rewrite, buffering output] list for 8 x 10 x 3 choices x 4 frame kinds x 4 entrances, all lists of length <= 3 over an 8-item alphabet (buffering output in every position) "
+            "for 5 (frame kind, entrance, pool size) combinations, every id handed out then used twice; fault-then-reuse histories (faulted release by packet_out / 4 flow_mod flavours, then re-use of the id, new arrivals, "
+            "their ids used twice, pools 1/2/4/5/129); all histories of length <= 4 over a 12-op alphabet with pool sizes 0..2, all of length <= 3 over a 10-op flow_mod-flavour alphabet with table capacities 0/1/unlimited, rewrite-after-buffering histories, "
             "pools of 129/255/256/257/300/1000 (thorough: to 4097) filled to max+1 and emptied in several orders; non-trivial = some id is handed out and later used, or the pool fills")
 
     def setup(self):
         poxenv.boot()
         import swnet, pox.openflow.libopenflow_01 as of
-        from pox.lib.addresses import EthAddr
-        self.swnet, self.of, self.EthAddr = swnet, of, EthAddr
+        from pox.lib.addresses import EthAddr, IPAddr
+        self.swnet, self.of, self.EthAddr, self.IPAddr = swnet, of, EthAddr, IPAddr
         self._noslots = False
-        self.stats = {"refused_flow_mods_naming_a_live_buffer": 0, "largest_number_outstanding": 0, "releases_after_later_rewrite": 0}
+        self.stats = {"refused_flow_mods_naming_a_live_buffer": 0, "largest_number_outstanding": 0, "releases_after_later_rewrite": 0,
+                      "action_list_packet_ins": 0, "faulted_releases": 0}
 
     ALPHA = [{"op": "arrive", "i": 0, "len": 20, "port": 1, "dl": None}, {"op": "arrive", "i": 1, "len": 14, "port": 2, "dl": 3},
              {"op": "use", "id": 1, "via": "po"}, {"op": "use", "id": 2, "via": "fm"}, {"op": "use", "id": 0, "via": "po"},
@@ -203,7 +294,82 @@ class C18(Check):
         for mx in self.BIG:
             cases += self.big_cases(mx, (0, 1, 2) if mx < 1000 else (0, 2))
         cases += self.alias_cases()
+        cases += self.acts_cases()
+        cases += self.fault_cases()
         return cases
+
+    SER = [["out", 2], ["flood"], ["ctl", 65535], ["ctl", 3], ["inport"], ["all"], ["enq", 3], ["table"]]
+    RW = [["dl_src", 7], ["dl_dst", 8], ["vlan_vid", 5], ["vlan_pcp", 3], ["strip_vlan"], ["nw_src", 9], ["nw_dst", 4], ["nw_tos", 0x28], ["tp_src", 4000], ["tp_dst", 80]]
+    BUF = [["ctl", 65535], ["ctl", 10], ["table"]]
+    A8 = [["out", 2], ["flood"], ["ctl", 6], ["table"], ["vlan_vid", 5], ["strip_vlan"], ["dl_dst", 8], ["nw_tos", 0x28]]
+    KINDS = (("raw", 20), ("tag", 24), ("udp", 60), ("tudp", 64))
+
+    def _acts_case(self, kind, ln, src, items, mx=4, fmk=None):
+        """one action list over a new frame (src po / entry) or over a buffered packet of that kind (src bufpo / buffm); every id any
+        packet-in hands out is then used (twice)"""
+        new = {"op": "acts", "src": "new", "i": 3, "len": ln, "kind": kind, "port": 1}
+        rel = lambda m: [{"op": "use", "ref": [m, 0, q], "via": "po"} for q in (0, 1, 2, 0)]
+        if src in ("po", "entry"):
+            return {"max": mx, "miss": 12, "ops": [dict(new, how=src, items=items)] + rel(0)}
+        b = {"op": "acts", "src": "buf", "ref": [0, 0, 0], "via": "po" if src == "bufpo" else "fm", "items": items}
+        if fmk: b["fmk"] = fmk
+        return {"max": mx, "miss": 12, "ops": [dict(new, how="po", items=[["ctl", 0]]), b] + rel(1) + [{"op": "use", "ref": [0, 0, 0], "via": "po"}]}
+
+    def acts_cases(self):
+        """HARDENING 13/20/25: an action that SERIALISES the packet (an output to a port, FLOOD, ALL, enqueue, an earlier buffering output), then a
+        rewrite (every kind, the length-changing ones too), then the buffering output — packet-in and a later release must both show the frame
+        as it is AT the buffering output; and all short lists over a mixed alphabet, the buffering output in every position"""
+        out = []
+        for kind, ln in self.KINDS:
+            for ser in self.SER:
+                for rw in self.RW:
+                    if rw[0][:2] in ("nw", "tp") and kind in ("raw", "tag"): continue
+                    for b in self.BUF:
+                        for src in ("po", "entry", "bufpo", "buffm"):
+                            if src == "entry" and "table" in (ser[0], b[0]): continue
+                            out.append(self._acts_case(kind, ln, src, [ser, rw, b]))
+        for kind, ln, src, mx, fmk in (("raw", 20, "po", 4, None), ("raw", 21, "po", 1, None), ("tudp", 64, "bufpo", 4, None), ("tag", 24, "buffm", 2, "mods"), ("udp", 61, "entry", 3, None)):
+            for L in (1, 2, 3):
+                for items in itertools.product(self.A8, repeat=L):
+                    if src == "entry" and any(it[0] == "table" for it in items): continue
+                    out.append(self._acts_case(kind, ln, src, [list(it) for it in items], mx, fmk))
+                    if src == "entry" and L == 3 and items[0][0] in ("out", "flood", "ctl"):      # rx_packet(packet, port) without the packed form
+                        c = self._acts_case(kind, ln, src, [list(it) for it in items], mx, fmk); c["ops"][0]["pd"] = False
+                        out.append(c)
+        return out
+
+    def fault_cases(self):
+        """HARDENING 23 (fault, then reuse): the k-th physical output of a buffer's release raises (every spelling, both sites, packet_out
+        and flow_mod in several flavours); the id is gone, the ids handed out afterwards work exactly once, stored = outstanding"""
+        out = []
+        lists = [([["inport"]], 1), ([["out", 2], ["out", 3]], 1), ([["out", 2], ["out", 3]], 2), ([["flood"]], 2), ([["ctl", 8], ["out", 2]], 1),
+                 ([["out", 2], ["ctl", 8]], 1), ([["vlan_vid", 5], ["all"], ["ctl", 0]], 3)]
+        arr = lambda i, port: {"op": "arrive", "i": i, "len": 20, "port": port, "dl": None}
+        use = lambda m, q=0: {"op": "use", "ref": [m, 0, q], "via": "po"}
+        for via, fmk in (("po", None), ("fm", "add"), ("fm", "mods"), ("fm", "emerg"), ("fm", "ovl")):
+            for site in FAULT_SITES:
+                for si, sp in enumerate(FAULT_SPELLINGS):
+                    for items, k in (lists if si < 2 else [lists[(si + len(via)) % len(lists)]]):
+                        for mx in (1, 2, 4):
+                            a = {"op": "acts", "src": "buf", "ref": [0, 0], "via": via, "items": items, "fault": {"k": k, "exc": sp, "site": site}}
+                            if fmk: a["fmk"] = fmk
+                            out.append({"max": mx, "miss": 5, "ops": [arr(0, 1), arr(1, 2), a, use(0), arr(2, 3), arr(3, 1), use(4), use(4), use(5), use(2), use(1),
+                                                                      arr(4, 2), use(11), use(11)]})
+        # the fault hits an action list over a NEW frame (no buffer named): the packet-ins it sent before are good, the pool goes on
+        for how in ("po", "entry"):
+            for k in (1, 2):
+                for site in FAULT_SITES:
+                    a = {"op": "acts", "src": "new", "i": 7, "len": 30, "kind": "raw", "port": 1, "how": how, "items": [["ctl", 4], ["out", 2], ["dl_src", 3], ["ctl", 5], ["out", 3], ["ctl", 6]],
+                         "fault": {"k": k, "exc": "OSError", "site": site}}
+                    out.append({"max": 3, "miss": 5, "ops": [a, use(0, 0), use(0, 1), use(0, 2), arr(1, 2), use(4), use(4)]})
+        # a larger pool: a faulted release in the middle of a full pool, then everything released and the pool filled again
+        for mx in (5, 129):
+            out.append({"max": mx, "miss": 5, "ops": [{"op": "fill", "n": mx + 1, "i": 0, "len": 14, "port": 1, "dl": None},
+                                                      {"op": "acts", "src": "buf", "ref": [0, mx // 2], "via": "po", "items": [["out", 2], ["out", 3]], "fault": {"k": 2, "exc": "EPIPE", "site": "method"}},
+                                                      {"op": "fill", "n": 2, "i": mx + 1, "len": 15, "port": 2, "dl": 6},
+                                                      {"op": "userefs", "of": 0, "from": 0, "to": mx + 1, "via": "po"}, {"op": "use", "ref": [2, 0], "via": "fm"},
+                                                      {"op": "fill", "n": mx + 1, "i": 2 * mx, "len": 16, "port": 3, "dl": None}]})
+        return out
 
     def _rand_id(self, rng, mx, k, arrivals, extra=()):
         """a buffer named literally, or as 'the id handed out by step j'"""
@@ -216,7 +382,38 @@ class C18(Check):
         if pre: rw["pre"] = [[rng.choice(["src", "dst"]), rng.randint(1, 9)] for _ in range(rng.choice([0, 0, 1]))]
         return rw
 
-    def _rand_op(self, rng, mx, k, covered=(), arrivals=(), limited=False):
+    def _rand_items(self, rng, table_ok):
+        items = []
+        for _ in range(rng.choice([1, 2, 3, 3, 4, 5, 6])):
+            r = rng.random()
+            if r < 0.3:
+                items.append(rng.choice([["out", rng.randint(1, 5)], ["flood"], ["all"], ["inport"], ["enq", rng.randint(1, 4)]]))
+            elif r < 0.6:
+                items.append(["table"] if (table_ok and rng.random() < 0.3) else ["ctl", rng.choice([0, 1, 14, 18, 128, 65535, rng.randint(0, 80)])])
+            else:
+                items.append(rng.choice([["dl_src", rng.randint(1, 9)], ["dl_dst", rng.randint(1, 9)], ["vlan_vid", rng.choice([0, 1, 5, 100, 4095])], ["vlan_pcp", rng.randint(0, 7)],
+                                         ["strip_vlan"], ["nw_src", rng.randint(1, 250)], ["nw_dst", rng.randint(1, 250)], ["nw_tos", rng.choice([0, 0x28, 0xfc])],
+                                         ["tp_src", rng.choice([0, 53, 65535])], ["tp_dst", rng.choice([0, 80, 65535])]]))
+        return items
+
+    def _rand_acts(self, rng, mx, k, covered, arrivals, limited):
+        if arrivals and rng.random() < 0.55:
+            op = {"op": "acts", "src": "buf", "via": rng.choice(["po", "po", "fm"]), "items": self._rand_items(rng, not covered)}
+            if rng.random() < 0.7: op["ref"] = [rng.choice(arrivals), 0, rng.choice([0, 0, 0, 1])]
+            else: op["id"] = rng.choice([0, 1, 1, 2, 2, 3, mx, mx + 1])
+            if op["via"] == "fm" and rng.random() < 0.7: op["fmk"] = rng.choice(self.FMK)
+        else:
+            port = rng.randint(1, 4)
+            kind = rng.choice(["raw", "raw", "tag", "udp", "tudp"])
+            op = {"op": "acts", "src": "new", "i": k, "len": rng.choice([20, 24, 46, 60, 64, 129, rng.randint(20, 200)]), "kind": kind, "port": port,
+                  "how": "entry" if (not limited and rng.random() < 0.4) else "po", "items": self._rand_items(rng, port not in covered)}
+            if op["how"] == "entry" and rng.random() < 0.5: op["pd"] = False
+        if rng.random() < 0.3:
+            op["fault"] = {"k": rng.randint(1, 4), "exc": rng.choice(FAULT_SPELLINGS), "site": rng.choice(FAULT_SITES)}
+        return op
+
+    def _rand_op(self, rng, mx, k, covered=(), arrivals=(), limited=False, acts=0.0):
+        if acts and rng.random() < acts: return self._rand_acts(rng, mx, k, covered, arrivals, limited)
         r = rng.random()
         if r < 0.42:
             port = rng.randint(1, 4)
@@ -249,15 +446,16 @@ class C18(Check):
 
     def generate(self, rng, tier):
         n = 250 if tier == "quick" else 6000
-        for _ in range(n):
+        for t in range(n + (n // 2 if tier == "quick" else n)):
             mx = rng.randint(0, 4)
             L = rng.choice([3, 8, 20, 60, rng.randint(1, 60)])
             ent = rng.choice([None, None, None, 0, 1, 2])
             ops, covered, arrivals = [], set(), []
             for k in range(L):
-                op = self._rand_op(rng, mx, k, covered, arrivals, ent is not None)
+                # the histories past the first n mix in arbitrary action lists (over new frames and over buffered packets), some with a failing output
+                op = self._rand_op(rng, mx, k, covered, arrivals, ent is not None, acts=0.0 if t < n else 0.3)
                 if op["op"] == "install": covered.add(op["inport"])
-                if op["op"] in ("arrive", "usectl"): arrivals.append(k)
+                if op["op"] in ("arrive", "usectl", "acts"): arrivals.append(k)
                 ops.append(op)
             c = {"max": mx, "miss": rng.choice([0, 5, 128, 65535]), "ops": ops}
             if ent is not None: c["entries"] = ent
@@ -276,9 +474,9 @@ class C18(Check):
         def renum(op, i):
             op = dict(op)
             if "ref" in op:
-                m, k = op["ref"]
+                m, k = op["ref"][0], op["ref"][1]
                 if m == i: return None
-                if m > i: op["ref"] = [m - 1, k]
+                if m > i: op["ref"] = [m - 1] + list(op["ref"][1:])
             if "of" in op:
                 if op["of"] == i: return None
                 if op["of"] > i: op["of"] -= 1
@@ -288,6 +486,15 @@ class C18(Check):
             c = copy.deepcopy(case); c["ops"] = [op for op in new if op is not None]
             yield c
         for i, op in enumerate(ops):
+            if op["op"] == "acts":
+                if op.get("fault"):
+                    c = copy.deepcopy(case); del c["ops"][i]["fault"]; yield c
+                for j in range(len(op["items"])):
+                    c = copy.deepcopy(case); del c["ops"][i]["items"][j]
+                    if op.get("fault"): c["ops"][i]["fault"]["k"] = 1
+                    yield c
+                    if op.get("fault"):
+                        c = copy.deepcopy(case); del c["ops"][i]["items"][j]; yield c
             if op["op"] == "fill":
                 for v in descents(op["n"]):
                     c = copy.deepcopy(case); c["ops"][i]["n"] = v; yield c
@@ -319,6 +526,32 @@ class C18(Check):
         of = self.of
         return [(of.ofp_action_dl_addr.set_src if w == "src" else of.ofp_action_dl_addr.set_dst)(self.EthAddr(mac(b))) for w, b in rws or ()]
 
+    def _item_actions(self, items):
+        of, E = self.of, self.EthAddr
+        out = []
+        for it in items:
+            k = it[0]
+            if k == "out": a = of.ofp_action_output(port=it[1])
+            elif k == "enq": a = of.ofp_action_enqueue(port=it[1], queue_id=0)
+            elif k == "inport": a = of.ofp_action_output(port=of.OFPP_IN_PORT)
+            elif k == "flood": a = of.ofp_action_output(port=of.OFPP_FLOOD)
+            elif k == "all": a = of.ofp_action_output(port=of.OFPP_ALL)
+            elif k == "ctl": a = of.ofp_action_output(port=of.OFPP_CONTROLLER, max_len=it[1])
+            elif k == "table": a = of.ofp_action_output(port=of.OFPP_TABLE)
+            elif k == "dl_src": a = of.ofp_action_dl_addr.set_src(E(mac(it[1])))
+            elif k == "dl_dst": a = of.ofp_action_dl_addr.set_dst(E(mac(it[1])))
+            elif k == "vlan_vid": a = of.ofp_action_vlan_vid(vlan_vid=it[1])
+            elif k == "vlan_pcp": a = of.ofp_action_vlan_pcp(vlan_pcp=it[1])
+            elif k == "strip_vlan": a = of.ofp_action_strip_vlan()
+            elif k == "nw_src": a = of.ofp_action_nw_addr.set_src(self.IPAddr("192.168.0.%d" % (it[1] & 0xff)))
+            elif k == "nw_dst": a = of.ofp_action_nw_addr.set_dst(self.IPAddr("192.168.1.%d" % (it[1] & 0xff)))
+            elif k == "nw_tos": a = of.ofp_action_nw_tos(nw_tos=it[1])
+            elif k == "tp_src": a = of.ofp_action_tp_port.set_src(it[1])
+            elif k == "tp_dst": a = of.ofp_action_tp_port.set_dst(it[1])
+            else: raise ValueError("item %r" % (it,))
+            out.append(a)
+        return out
+
     def _ctl_actions(self, dl, rw):
         of = self.of
         rw = rw or {}
@@ -348,8 +581,63 @@ class C18(Check):
             return berr, ref, [r for r in rep if r not in berr and r not in ref]
         def side(em):
             return [[p, f.hex()] for p, f in em]
-        for op in expand(case):
-            if op["op"] == "arrive":
+        prims = expand(case)
+        # fault injection (only in cases that ask for it): the k-th physical output DURING ONE STEP raises — either a DpPacketOut listener
+        # (served before the recording one: the frame did not leave) or the switch's own _output_packet_physical (the override point)
+        armed = [None]
+        if any(p.get("fault") for p in prims):
+            def hit(site):
+                f = armed[0]
+                if f is None or f["site"] != site: return
+                f["n"] += 1
+                if f["n"] == f["k"]:
+                    f["fired"] = True
+                    raise make_exc(f["exc"])
+            node.sw.addListener(self.swnet.DpPacketOut, lambda e: hit("listener"), priority=1000)
+            inner = node.sw._output_packet_physical
+            def phys(packet, port_no):
+                hit("method")
+                return inner(packet, port_no)
+            node.sw._output_packet_physical = phys
+        for op in prims:
+            if op["op"] == "acts":
+                # an arbitrary action list over a NEW frame (packet_out with data, or a flow entry the arriving frame hits) or over a
+                # BUFFERED packet (packet_out / flow_mod naming the id)
+                act = self._item_actions(op["items"])
+                f = op.get("fault")
+                if f: armed[0] = {"site": f.get("site", "listener"), "k": f["k"], "exc": f["exc"], "n": 0, "fired": False}
+                via, fired = "po", False
+                if op["src"] == "new":
+                    fr = frame2(op["i"], op["len"], op.get("kind", "raw"))
+                    if op.get("how") == "entry" and not any(it[0] == "table" for it in op["items"]):
+                        m = dict(match=of.ofp_match(in_port=op["port"], dl_dst=self.EthAddr(fr[:6])), priority=0xa000)
+                        s1, r1, e1 = node.send(of.ofp_flow_mod(command=of.OFPFC_ADD, actions=act, **m))
+                        if op.get("pd", True): st, rep, em = node.rx(fr, op["port"])
+                        else:
+                            # the other calling convention of rx_packet: no packed form handed in
+                            node.emitted = []; st = "ok"
+                            try: node.sw.rx_packet(self.swnet.ethernet(fr), op["port"])
+                            except Exception as e: st = "raise:" + type(e).__name__
+                            rep, em = node.drain(), list(node.emitted)
+                        if armed[0] is not None: fired = armed[0]["fired"]; armed[0] = None
+                        s2, r2, e2 = node.send(of.ofp_flow_mod(command=of.OFPFC_DELETE_STRICT, **m))
+                        if (s1, s2) != ("ok", "ok") or r1 or r2 or e1 or e2: st = "entry-setup:%s/%s/%d/%d" % (s1, s2, len(r1), len(r2))
+                        elif fired and st.startswith("raise:"): st = "ok"          # the injected exception reached the caller of rx_packet
+                    else:
+                        st, rep, em = node.send(of.ofp_packet_out(data=fr, in_port=op["port"], actions=act))
+                else:
+                    bid, via = op_id(op, outs), op.get("via", "po")
+                    msg = of.ofp_packet_out(buffer_id=bid, in_port=of.OFPP_NONE, actions=act) if via == "po" else self._flow_mod(op, bid, act)
+                    st, rep, em = node.send(msg)
+                if armed[0] is not None: fired = armed[0]["fired"]; armed[0] = None
+                errs, ref, rest = split(rep, via)
+                o = pins(rest)
+                if st != "ok" or len(errs) > 1 or len(ref) > 1 or any(q["k"] != "pin" for q in o) or (errs and (o or em)):
+                    outs.append({"k": "unexpected", "status": st, "emitted": len(em), "replies": pins(rep)})
+                else:
+                    outs.append({"k": "acts", "pins": o, "em": side(em), "fired": fired})
+                    if ref: outs[-1]["refused"] = 1
+            elif op["op"] == "arrive":
                 fr = frame(op["i"], op["len"])
                 rw = op.get("rw")
                 if op["dl"] is None and rw:
@@ -457,18 +745,23 @@ class C18(Check):
         return {"stored": case["max"] - free, "slots": None}
 
     def model_request(self, case):
-        if any("ref" in op or op["op"] == "userefs" for op in case["ops"]): return None      # needs the ids the switch handed out
-        return self._model_request(case, None)
+        if any("ref" in op or op["op"] in ("userefs", "acts") for op in case["ops"]): return None      # needs the ids the switch handed out
+        return self._model_request(case, None, {})
 
     def model_request2(self, case, obs):
-        """steps that name 'the id handed out by step k' are put to the model with the id the switch handed out there"""
+        """steps that name 'the id handed out by step k' are put to the model with the id the switch handed out there; an action list
+        (`acts`) is put to the model as the arrivals it amounts to (the frame as it is AT each buffering output, computed here) followed
+        by the release of the buffer it names"""
         if len(obs.get("outs", ())) != len(expand(case)): return None
-        return self._model_request(case, obs["outs"])
+        acts = {}
+        if self._walk(case, obs, acts, count=False) is not None: return None      # the property fails: reported as that, not compared
+        return self._model_request(case, obs["outs"], acts)
 
-    def _model_request(self, case, outs):
+    def _model_request(self, case, outs, acts):
         ops = []
-        for op in expand(case):
+        for n, op in enumerate(expand(case)):
             if op["op"] == "arrive": ops.append({"op": "arrive", "fr": rewrite(frame(op["i"], op["len"]), (op.get("rw") or {}).get("pre")).hex(), "port": op["port"], "dl": op["dl"]})
+            elif op["op"] == "acts": ops += acts[n][0]
             elif op["op"] == "use": ops.append({"op": "use", "id": op_id(op, outs)})
             elif op["op"] == "drop": ops.append({"op": "drop", "id": op_id(op, outs)})
             elif op["op"] == "usectl": ops.append({"op": "usectl", "id": op_id(op, outs), "dl": op["dl"]})
@@ -482,17 +775,34 @@ class C18(Check):
 
     def impl_view(self, case, obs):
         """what the model answers: the packet-ins, the frames a release emits, the slot list.  What the OTHER actions of an action list
-        emitted (`side`) and whether the table refused a flow_mod (`refused`) are outside the model — the oracle looks at them"""
-        return {"outs": [{k: v for k, v in o.items() if k not in ("side", "refused")} for o in obs["outs"]], "stored": obs["stored"], "slots": obs["slots"]}
+        emitted (`side`, `em`) and whether the table refused a flow_mod (`refused`) are outside the model — the oracle looks at them"""
+        strip = lambda o: {k: v for k, v in o.items() if k not in ("side", "refused")}
+        outs = obs["outs"]
+        if any(o.get("k") == "acts" for o in outs):
+            acts, flat = {}, []
+            self._walk(case, obs, acts, count=False)
+            for n, o in enumerate(outs):
+                if o.get("k") == "acts": flat += acts[n][1] if n in acts else [o]
+                else: flat.append(strip(o))
+            outs = flat
+        else:
+            outs = [strip(o) for o in outs]
+        return {"outs": outs, "stored": obs["stored"], "slots": obs["slots"]}
 
     # the property on the implementation's observables: an abstract id -> frame map with capacity
     def oracle(self, case, obs):
+        return self._walk(case, obs, {}, count=True)
+
+    def _walk(self, case, obs, acts, count=True):
+        """-> a failure of the property or None.  Fills acts[n] = (model ops, their view of the observed outputs) for every action-list step n."""
         live, miss = {}, case["miss"]
         prims = expand(case)
         if len(obs["outs"]) != len(prims): return "harness: output count"
         most = 0
+        stats = self.stats if count else dict(self.stats)
         def pin_check(o, fr, port, dl, freed=None):
-            """the packet-in for frame `fr`: form, id not outstanding, bound.  Returns a failure or None"""
+            """the packet-in for frame `fr`: form, id not outstanding, bound.  `freed`: the id being released by the very action list
+            that produced this packet-in (its slot may or may not count as occupied at that moment).  Returns a failure or None"""
             if o["total"] != len(fr): return "packet-in total_len %d != frame length %d" % (o["total"], len(fr))
             bid = o["bid"]
             if bid is None:
@@ -500,7 +810,7 @@ class C18(Check):
                 if o["data"] != fr.hex(): return "unbuffered packet-in does not carry the whole frame"
             else:
                 if bid in live: return "buffer id %d handed out twice" % bid
-                if freed is None and len(live) >= case["max"]: return "more than max_buffers packets stored"
+                if len(live) - (0 if freed is None else 1) >= case["max"]: return "more than max_buffers packets stored"
                 if o["data"] != fr[:dl].hex(): return "buffered packet-in data is not the first min(len, %d) bytes" % dl
             return None
         def wrong_emit(bid, o):
@@ -511,7 +821,65 @@ class C18(Check):
             return "using live buffer %d did not emit its packet" % bid
         for n, (op, o) in enumerate(zip(prims, obs["outs"])):
             if o["k"] == "unexpected": return "step %d %s: %s" % (n, op["op"], o.get("status"))
-            if op["op"] == "arrive":
+            if op["op"] == "acts":
+                if o["k"] != "acts": return "harness: step %d" % n
+                oid = None
+                if op["src"] == "new":
+                    cur, port = frame2(op["i"], op["len"], op.get("kind", "raw")), op["port"]
+                else:
+                    oid = op_id(op, obs["outs"])
+                    if oid not in live:
+                        if o["pins"] or o["em"] or o["fired"]: return "using unknown/used buffer id emitted a packet"
+                        acts[n] = ([{"op": "drop", "id": oid}], [{"k": "none"}])
+                        continue
+                    cur, port = live[oid][0], live[oid][1]
+                # what the list amounts to, item by item, on the frame as it is at that item
+                sends, cut, exp_pins, exp_em, fault = 0, None, [], [], op.get("fault")
+                for j, it in enumerate(op["items"]):
+                    k = it[0]
+                    if k in REWRITES: cur = rw_bytes(it, cur); continue
+                    if k == "ctl": exp_pins.append((j, cur, it[1])); continue
+                    if k == "table": exp_pins.append((j, cur, None)); continue
+                    if k in ("out", "enq"): targets = [it[1]] if (it[1] != port and 1 <= it[1] <= 4) else []
+                    elif k == "inport": targets = [port]
+                    else: targets = [q for q in (1, 2, 3, 4) if q != port]
+                    exp_em += [(j, q, cur) for q in targets]
+                    sends += len(targets)
+                    if fault and cut is None and sends >= fault["k"]: cut = j
+                if o["fired"] and cut is None: return "a physical output happened that the action list does not ask for"
+                if not o["fired"]: cut = None          # no fault (or it was never reached): the whole list is expected
+                # after a fault the rest of the list may or may not be carried out (the property is silent); what precedes it must be
+                need = [e for e in exp_pins if cut is None or e[0] < cut]
+                if not (len(need) <= len(o["pins"]) <= len(exp_pins)):
+                    return "action list produced %d packet-ins, expected %d" % (len(o["pins"]), len(need))
+                mops, mview = [], []
+                for q, (j, fr, dl) in zip(o["pins"], exp_pins):
+                    if q["port"] != port: return "packet-in in_port wrong"
+                    f = pin_check(q, fr, port, miss if dl is None else dl, freed=oid)
+                    if f: return f
+                    if q["bid"] is not None: live[q["bid"]] = (fr, port, cur if cur != fr else None)
+                    if cut is None or j < cut:
+                        mops.append({"op": "arrive", "fr": fr.hex(), "port": port, "dl": dl})
+                    mview.append({k: v for k, v in q.items() if k in ("k", "bid", "data", "total", "port")})
+                if oid is not None:
+                    # "using it emits that packet through the given actions": what left the ports, as multisets per (port, frame)
+                    seen = sorted(map(tuple, o["em"]))
+                    must = sorted((q, fr.hex()) for j, q, fr in exp_em if cut is None or j < cut)
+                    may = sorted((q, fr.hex()) for j, q, fr in exp_em)
+                    def sub(x, y):
+                        y = list(y)
+                        for e in x:
+                            if e not in y: return False
+                            y.remove(e)
+                        return True
+                    if not (sub(must, seen) and sub(seen, may)): return "using live buffer %d did not emit its packet through the given actions" % oid
+                    del live[oid]              # used: released whether or not an output failed
+                    mops.append({"op": "drop", "id": oid}); mview.append({"k": "none"})
+                    if o["fired"]: stats["faulted_releases"] = stats.get("faulted_releases", 0) + 1
+                if not mops: mops.append({"op": "other"}); mview.append({"k": "none"})
+                acts[n] = (mops, mview)
+                if o["pins"]: stats["action_list_packet_ins"] = stats.get("action_list_packet_ins", 0) + len(o["pins"])
+            elif op["op"] == "arrive":
                 rw = op.get("rw") or {}
                 fr = rewrite(frame(op["i"], op["len"]), rw.get("pre")); dl = miss if op["dl"] is None else op["dl"]
                 fr2 = rewrite(fr, rw.get("post"))
@@ -536,12 +904,12 @@ class C18(Check):
                     # (diagnosis only) what an object shared with the action list would look like by now
                     alt = rewrite(later if later is not None else fr, rw.get("post"))
                     if o["bid"] is not None: live[o["bid"]] = (fr, port, alt if alt != fr else None)
-                    if o.get("refused"): self.stats["refused_flow_mods_naming_a_live_buffer"] += 1
+                    if o.get("refused"): stats["refused_flow_mods_naming_a_live_buffer"] += 1
                 else:
                     if o["k"] != "none": return "using unknown/used buffer id emitted a packet"
             elif op["op"] == "drop":
                 oid = op_id(op, obs["outs"])
-                if oid in live and o.get("refused"): self.stats["refused_flow_mods_naming_a_live_buffer"] += 1
+                if oid in live and o.get("refused"): stats["refused_flow_mods_naming_a_live_buffer"] += 1
                 live.pop(oid, None)              # released whether or not anything is emitted (checked by the stored count and by later uses)
                 if o["k"] != "none": return "a packet-out/flow-mod with an empty action list emitted a packet"
             elif op["op"] == "use":
@@ -549,8 +917,8 @@ class C18(Check):
                 if oid in live:
                     f = wrong_emit(oid, o)
                     if f: return f
-                    if live[oid][2] is not None: self.stats["releases_after_later_rewrite"] += 1
-                    if o.get("refused"): self.stats["refused_flow_mods_naming_a_live_buffer"] += 1
+                    if live[oid][2] is not None: stats["releases_after_later_rewrite"] += 1
+                    if o.get("refused"): stats["refused_flow_mods_naming_a_live_buffer"] += 1
                     del live[oid]
                 else:
                     if o["k"] != "none": return "using unknown/used buffer id emitted a packet"
@@ -564,7 +932,7 @@ class C18(Check):
             most = max(most, len(live))
         if obs["stored"] != len(live): return "stored packets %d != outstanding ids %d" % (obs["stored"], len(live))
         if obs["stored"] > case["max"]: return "stored exceeds max_buffers"
-        self.stats["largest_number_outstanding"] = max(self.stats["largest_number_outstanding"], most)
+        stats["largest_number_outstanding"] = max(stats["largest_number_outstanding"], most)
         return None
 
     def finding_key(self, case, obs, failure):
